@@ -20,7 +20,7 @@ const c14aRule = "exporter and importer HTTPTransfer with generated name sets (m
 	"then for one small dump the body is truncated at EVERY byte offset (fresh importer each); oracle: clean matched names == exporter's entries (Walk multiset), everything else untouched / nothing imported, truncated => imported subset of exported entry-wise equal, Import returns nil and never panics; " +
 	"non-trivial = >=2 names on a side and at least one fault, or a truncation sweep ran"
 
-const c14bRule = "gob types hash laws over a pool of 10 struct types (two of them with the same package and type name under different import paths): rapid draws a subset, two registration orders with multiplicities and an extra type; each order is evaluated in a FRESH process (the test binary re-executes itself) printing GobTypesHash(); " +
+const c14bRule = "gob types hash laws over a pool of 12 types (8 structs, two structs with the same package and type name under different import paths, two defined types of basic kind): rapid draws a subset, two registration orders with multiplicities and an extra type; each order is evaluated in a FRESH process (the test binary re-executes itself) printing GobTypesHash(); " +
 	"oracle: equal for equal sets (any order, any repetition, any process), different after adding a type; non-trivial = subset of >=2 types with a repetition or a genuinely different order"
 
 type rtFault struct {
@@ -124,7 +124,7 @@ func fillDump(c *Case, d dumpCache, family string, max int) {
 
 func propTransfer(c *Case) {
 	families := []string{kindSharded, kindSync, "Of[string]", "Of[struct]"}
-	names := []string{"alpha", "alpha&v=2", "be ta+1", "100%#x"}
+	names := []string{"alpha", "alpha&v=2", "be ta+1", "100%#x", ""}
 
 	c.Bubble(func() {
 		exp := &cache.HTTPTransfer{}
@@ -217,6 +217,10 @@ func propTransfer(c *Case) {
 				// unknown to the exporter: untouched
 				ok, diff := rowsEqual(false, s.pre, got)
 				c.Assert(ok, "unmatched-cache-changed", "importer cache %q is unknown to the exporter but changed: %s", name, diff)
+			case name == "":
+				// The exporter treats an empty name as a missing parameter: whether a cache registered
+				// under "" can be transferred at all is not specified; it must not harm the others.
+				assertSubset(c, "cache registered under the empty name", s.src.rows(), got)
 			case ft.mode == 0:
 				ok, diff := rowsEqual(false, s.src.rows(), got)
 				c.Assert(ok, "transfer-differs", "cache %q after Import differs from the exporter's: %s", name, diff)
@@ -238,7 +242,7 @@ func propTransfer(c *Case) {
 			}
 
 			size, ok := tr.sizes[name]
-			if !ok || size == 0 || size > 700 || tr.faults[name].mode == 1 {
+			if !ok || size == 0 || size > 700 || tr.faults[name].mode == 1 || name == "" {
 				continue
 			}
 
